@@ -109,6 +109,21 @@ def key_cisco(asa):
     return k
 
 
+def key_hmac(alg):
+    """formats that use the password as an HMAC key (PBKDF2 / scrypt): RFC 2104 replaces a key longer than the hash block by
+    its digest and zero-pads shorter ones, so keys differing only in trailing NUL bytes are the same key"""
+    import hashlib
+
+    def k(p, s, c):
+        b = _b(p)
+        bs = hashlib.new(alg).block_size
+        if len(b) > bs:
+            b = hashlib.new(alg, b).digest()
+        return b + b"\0" * (bs - len(b))
+
+    return k
+
+
 def key_htdigest(p, s, c):
     return _b(p, c.get("encoding") or "utf-8")
 
@@ -145,18 +160,18 @@ add(Fmt("bcrypt", salt=("bc64", 22, 22), rounds=(4, 4, [4, 4, 4, 5]), extra={"id
 add(Fmt("bcrypt_sha256", salt=("bc64", 22, 22), rounds=(4, 4, [4, 4, 5]), extra={"version": [2, 2, 1], "ident": ["2b", "2a"]},
         secret="bytes", needs_backend="bcrypt"))
 add(Fmt("phpass", salt=("h64", 8, 8), rounds=(7, 8, [7, 7, 8]), extra={"ident": ["P", "H"]}))
-add(Fmt("pbkdf2_sha1", salt=("bytes", 0, 40), rounds=PB_R))
-add(Fmt("pbkdf2_sha256", salt=("bytes", 0, 40), rounds=PB_R))
-add(Fmt("pbkdf2_sha512", salt=("bytes", 0, 40), rounds=PB_R))
-add(Fmt("cta_pbkdf2_sha1", salt=("bytes", 0, 40), rounds=PB_R))
-add(Fmt("dlitz_pbkdf2_sha1", salt=("h64", 0, 40), rounds=(1, 410, [1, 2, 399, 400, 401])))
-add(Fmt("atlassian_pbkdf2_sha1", salt=("bytes", 16, 16)))
-add(Fmt("grub_pbkdf2_sha512", salt=("bytes", 0, 70), rounds=PB_R))
+add(Fmt("pbkdf2_sha1", salt=("bytes", 0, 40), rounds=PB_R, key=key_hmac("sha1")))
+add(Fmt("pbkdf2_sha256", salt=("bytes", 0, 40), rounds=PB_R, key=key_hmac("sha256")))
+add(Fmt("pbkdf2_sha512", salt=("bytes", 0, 40), rounds=PB_R, key=key_hmac("sha512")))
+add(Fmt("cta_pbkdf2_sha1", salt=("bytes", 0, 40), rounds=PB_R, key=key_hmac("sha1")))
+add(Fmt("dlitz_pbkdf2_sha1", salt=("h64", 0, 40), rounds=(1, 410, [1, 2, 399, 400, 401]), key=key_hmac("sha1")))
+add(Fmt("atlassian_pbkdf2_sha1", salt=("bytes", 16, 16), key=key_hmac("sha1")))
+add(Fmt("grub_pbkdf2_sha512", salt=("bytes", 0, 70), rounds=PB_R, key=key_hmac("sha512")))
 add(Fmt("scram", salt=("bytes", 0, 30), rounds=(1, 60, [1, 2, 59]),
         extra={"algs": [None, None, "sha-1", "sha-1,sha-256", "sha-1,md5", "sha-1,sha-512,sha-256", "sha-1,sha-224,sha-384"]},
         secret="sasl", key=key_scram))
 add(Fmt("scrypt", salt=("bytes", 0, 30), rounds=(1, 5, [1, 2, 3, 4, 5]),
-        extra={"ident": ["$scrypt$", "$scrypt$", "$7$"], "block_size": [1, 2, 3, 8], "parallelism": [1, 1, 2, 3]}))
+        extra={"ident": ["$scrypt$", "$scrypt$", "$7$"], "block_size": [1, 2, 3, 8], "parallelism": [1, 1, 2, 3]}, key=key_hmac("sha256")))
 add(Fmt("fshp", salt=("bytes", 0, 40), rounds=PB_R, extra={"variant": [0, 1, 2, 3, "sha256", "1"]}))
 add(Fmt("cisco_pix", ctx=("user",), maxlen=16, key=key_cisco(False), trunc=16))
 add(Fmt("cisco_asa", ctx=("user",), maxlen=32, key=key_cisco(True), trunc=32))
@@ -179,9 +194,9 @@ add(Fmt("ldap_salted_md5", salt=("bytes", 4, 16)))
 add(Fmt("ldap_salted_sha1", salt=("bytes", 4, 16)))
 add(Fmt("ldap_salted_sha256", salt=("bytes", 4, 16)))
 add(Fmt("ldap_salted_sha512", salt=("bytes", 4, 16)))
-add(Fmt("ldap_pbkdf2_sha1", salt=("bytes", 0, 40), rounds=PB_R, base="pbkdf2_sha1"))
-add(Fmt("ldap_pbkdf2_sha256", salt=("bytes", 0, 40), rounds=PB_R, base="pbkdf2_sha256"))
-add(Fmt("ldap_pbkdf2_sha512", salt=("bytes", 0, 40), rounds=PB_R, base="pbkdf2_sha512"))
+add(Fmt("ldap_pbkdf2_sha1", salt=("bytes", 0, 40), rounds=PB_R, base="pbkdf2_sha1", key=key_hmac("sha1")))
+add(Fmt("ldap_pbkdf2_sha256", salt=("bytes", 0, 40), rounds=PB_R, base="pbkdf2_sha256", key=key_hmac("sha256")))
+add(Fmt("ldap_pbkdf2_sha512", salt=("bytes", 0, 40), rounds=PB_R, base="pbkdf2_sha512", key=key_hmac("sha512")))
 for _n in ("md5_crypt", "sha1_crypt", "sha256_crypt", "sha512_crypt", "des_crypt", "bsdi_crypt", "bcrypt"):
     _f = T[_n]
     add(Fmt("ldap_" + _n, salt=_f.salt, rounds=_f.rounds, extra=_f.extra, secret=_f.secret, key=_f.key, trunc=_f.trunc,
@@ -189,8 +204,8 @@ for _n in ("md5_crypt", "sha1_crypt", "sha256_crypt", "sha512_crypt", "des_crypt
 add(Fmt("htdigest", ctx=("user", "realm", "encoding"), secret="text_enc", key=key_htdigest))
 add(Fmt("django_salted_md5", salt=("django", 0, 20)))
 add(Fmt("django_salted_sha1", salt=("django", 0, 20)))
-add(Fmt("django_pbkdf2_sha1", salt=("django", 1, 20), rounds=PB_R))
-add(Fmt("django_pbkdf2_sha256", salt=("django", 1, 20), rounds=PB_R))
+add(Fmt("django_pbkdf2_sha1", salt=("django", 1, 20), rounds=PB_R, key=key_hmac("sha1")))
+add(Fmt("django_pbkdf2_sha256", salt=("django", 1, 20), rounds=PB_R, key=key_hmac("sha256")))
 add(Fmt("django_des_crypt", salt=("h64", 2, 6), secret="nonul", key=_key_des_n(8), trunc=8))
 add(Fmt("django_bcrypt", salt=("bc64", 22, 22), rounds=(4, 4, [4, 4, 4, 5]), extra={"ident": ["2b", "2a", "2y", "2"]}, secret="nonul",
         key=key_bcrypt, trunc=72, needs_backend="bcrypt", base="bcrypt", prefix="bcrypt$"))
